@@ -93,6 +93,9 @@ func (p *Proof) modifiesEffects(callee *ssa.Function, m *Clause, cc *ssa.CallCom
 		if i := paramIndex(callee, n.X); i >= 0 && i < len(cc.Args) {
 			if al, _, _, ok := fr.rootOf(cc.Args[i]); ok {
 				markRoot(al)
+				if !(al.Heap && isStructNonTime(al.Type().(*types.Pointer).Elem())) {
+					return
+				}
 			}
 			markRoot(cc.Args[i])
 		}
